@@ -36,4 +36,145 @@ theorem tie_phantom_occupancy (p : Option (List TS)) (t : Int) :
   | some occs =>
     cases h : predOccAt (.setBased occs) t <;> simp [h, Id.run, pure]
 
+/-! ### scenario-level queries (scenario/scenario.py), translated with their `for` loops as left folds -/
+
+/-- a loop `for x in xs: if p x: acc.append(f x)` collects `f` over the filtered list -/
+theorem foldl_append_filter {α β : Type} (p : α → Bool) (f : α → β) (xs : List α) (acc : List β) :
+    xs.foldl (fun acc x => if p x then acc ++ [f x] else acc) acc = acc ++ (xs.filter p).map f := by
+  induction xs generalizing acc with
+  | nil => simp
+  | cons x xs ih =>
+    simp only [List.foldl_cons, ih]
+    by_cases h : p x <;> simp [h]
+
+theorem foldl_append_all {α β : Type} (f : α → β) (xs : List α) (acc : List β) :
+    xs.foldl (fun acc x => acc ++ [f x]) acc = acc ++ xs.map f := by
+  induction xs generalizing acc with
+  | nil => simp
+  | cons x xs ih => simp [List.foldl_cons, ih]
+
+/-- `Scenario.occupancies_at_time_step(t, role)` of the current source: for a natural time step, the per-obstacle occupancies of
+    the obstacles passing the role filter, in the order of `self.obstacles` — the hand model `occupanciesAt` without the ids. -/
+theorem tie_scenario_occupancies (obs : List (Nat × Obst)) (t : Int) (role : Option Role) (ht : 0 ≤ t) :
+    Gen.Scenario_occupancies_at_time_step obs t role = .ok ((occupanciesAt obs t role).map (fun x => some x.2)) := by
+  unfold Gen.Scenario_occupancies_at_time_step
+  simp only [CR.Py.assert, CR.Py.isNat, ht, decide_true, if_true, bind, Except.bind, pure, Except.pure]
+  rw [foldl_append_filter (fun (o : Nat × Obst) => ((role.isNone || decide (some o.2.role = role)) && (occupancyAt o.2 t).isSome))
+        (fun o => occupancyAt o.2 t)]
+  simp only [List.nil_append, occupanciesAt]
+  congr 1
+  induction obs with
+  | nil => rfl
+  | cons o os ih =>
+    obtain ⟨i, ob⟩ := o
+    simp only [List.filter_cons, List.filterMap_cons]
+    by_cases hr : (role = none ∨ role = some ob.role)
+    · have hr' : (role.isNone || decide (some ob.role = role)) = true := by
+        rcases hr with h | h
+        · simp [h]
+        · simp [h]
+      cases ho : occupancyAt ob t with
+      | none => simp [hr, hr', ho, ih]
+      | some oc => simp [hr, hr', ho, ih]
+    · have hr' : (role.isNone || decide (some ob.role = role)) = false := by
+        cases role with
+        | none => simp at hr
+        | some r =>
+          have : ¬ (ob.role = r) := fun h => hr (Or.inr (by rw [h]))
+          simp [this]
+      simp [hr, hr', ih]
+
+theorem tie_scenario_occupancies_neg (obs : List (Nat × Obst)) (t : Int) (role : Option Role) (ht : t < 0) :
+    Gen.Scenario_occupancies_at_time_step obs t role = .error .assert := by
+  unfold Gen.Scenario_occupancies_at_time_step
+  have : ¬ (0 ≤ t) := by omega
+  simp [CR.Py.assert, CR.Py.isNat, this, bind, Except.bind]
+
+/-- `Scenario.obstacles_by_role_and_type(role, type)` of the current source returns, in the order of `self.obstacles`, exactly the
+    obstacles whose ids the hand model `byRoleType` lists. -/
+theorem tie_scenario_filter (obs : List (Nat × Obst × Option Nat)) (role : Option Role) (ty : Option Nat) :
+    ∃ l, Gen.Scenario_obstacles_by_role_and_type obs role ty = .ok l ∧ l.map (·.1) = byRoleType obs role ty ∧
+      l.Sublist obs := by
+  unfold Gen.Scenario_obstacles_by_role_and_type
+  simp only [CR.Py.assert, if_true, bind, Except.bind, pure, Except.pure]
+  rw [foldl_append_filter (fun (o : Nat × Obst × Option Nat) =>
+        ((role.isNone || decide (some o.2.1.role = role)) && (ty.isNone || decide (o.2.2 = ty)))) (fun o => o)]
+  refine ⟨_, rfl, ?_, ?_⟩
+  · simp only [List.nil_append, List.map_id', byRoleType]
+    induction obs with
+    | nil => rfl
+    | cons o os ih =>
+      obtain ⟨i, ob, oty⟩ := o
+      simp only [List.filter_cons, List.filterMap_cons]
+      have e1 : (role.isNone || decide (some ob.role = role)) = decide (role = none ∨ role = some ob.role) := by
+        cases role with
+        | none => simp
+        | some r => simp [eq_comm]
+      have e2 : (ty.isNone || decide (oty = ty)) = decide (ty = none ∨ (ty.isSome ∧ ty = oty)) := by
+        cases ty with
+        | none => simp
+        | some k => simp [eq_comm]
+      rw [e1, e2]
+      by_cases h : (role = none ∨ role = some ob.role) ∧ (ty = none ∨ (ty.isSome ∧ ty = oty))
+      · have : (decide (role = none ∨ role = some ob.role) && decide (ty = none ∨ (ty.isSome ∧ ty = oty))) = true := by
+          simp only [Bool.and_eq_true, decide_eq_true_eq]; exact h
+        simp [this, h, ih]
+      · have : (decide (role = none ∨ role = some ob.role) && decide (ty = none ∨ (ty.isSome ∧ ty = oty))) = false := by
+          rw [Bool.eq_false_iff]; intro hc
+          simp only [Bool.and_eq_true, decide_eq_true_eq] at hc; exact h hc
+        simp [this, h, ih]
+  · simp only [List.nil_append, List.map_id']
+    exact List.filter_sublist
+
+/-- `Scenario.obstacle_states_at_time_step(t)` of the current source: for a natural time step the returned dict (as an association
+    list: dynamic obstacles with a state at `t` first, then all static ones) has exactly the entries of the hand model `statesAt`. -/
+theorem tie_scenario_states (obs : List (Nat × Obst)) (t : Int) (ht : 0 ≤ t) :
+    ∃ l, Gen.Scenario_obstacle_states_at_time_step obs t = .ok l ∧
+      (∀ e ∈ l, e.2.isSome) ∧ ∀ i s, (i, some s) ∈ l ↔ (i, s) ∈ statesAt obs t := by
+  unfold Gen.Scenario_obstacle_states_at_time_step
+  simp only [CR.Py.assert, CR.Py.isNat, ht, decide_true, if_true, bind, Except.bind, pure, Except.pure]
+  rw [foldl_append_filter (fun (o : Nat × Obst) => (stateAt o.2 t).isSome) (fun o => (o.1, stateAt o.2 t)),
+      foldl_append_all (fun (o : Nat × Obst) => (o.1, some StRef.init))]
+  refine ⟨_, rfl, ?_, ?_⟩
+  · intro e he
+    simp only [List.nil_append, List.mem_append, List.mem_map, List.mem_filter] at he
+    rcases he with ⟨o, ⟨_, ho⟩, rfl⟩ | ⟨o, _, rfl⟩
+    · exact ho
+    · rfl
+  · intro i s
+    simp only [List.nil_append, List.mem_append, List.mem_map, List.mem_filter, statesAt, List.mem_filterMap,
+      decide_eq_true_eq]
+    constructor
+    · rintro (⟨o, ⟨⟨hm, hr⟩, _⟩, he⟩ | ⟨o, ⟨hm, hr⟩, he⟩)
+      · obtain ⟨j, ob⟩ := o
+        simp only [Prod.mk.injEq] at he
+        obtain ⟨rfl, hs⟩ := he
+        refine ⟨(j, ob), hm, ?_⟩
+        cases ob <;> simp_all [Obst.role]
+      · obtain ⟨j, ob⟩ := o
+        simp only [Prod.mk.injEq, Option.some.injEq] at he
+        obtain ⟨rfl, rfl⟩ := he
+        refine ⟨(j, ob), hm, ?_⟩
+        cases ob <;> simp_all [Obst.role]
+    · rintro ⟨⟨j, ob⟩, hm, h⟩
+      cases ob with
+      | static ti =>
+        simp only [Option.some.injEq, Prod.mk.injEq] at h
+        obtain ⟨rfl, rfl⟩ := h
+        exact Or.inr ⟨(j, .static ti), ⟨hm, rfl⟩, rfl⟩
+      | dynamic ti p =>
+        simp only [Option.map_eq_some_iff] at h
+        obtain ⟨s', hs, he⟩ := h
+        simp only [Prod.mk.injEq] at he
+        obtain ⟨rfl, rfl⟩ := he
+        exact Or.inl ⟨(j, .dynamic ti p), ⟨⟨hm, rfl⟩, by simp [hs]⟩, by simp [hs]⟩
+      | phantom p => simp at h
+      | environment => simp at h
+
+theorem tie_scenario_states_neg (obs : List (Nat × Obst)) (t : Int) (ht : t < 0) :
+    Gen.Scenario_obstacle_states_at_time_step obs t = .error .assert := by
+  unfold Gen.Scenario_obstacle_states_at_time_step
+  have : ¬ (0 ≤ t) := by omega
+  simp [CR.Py.assert, CR.Py.isNat, this, bind, Except.bind]
+
 end CR.Occ
